@@ -635,9 +635,39 @@ func cancelReachesIdleHandlerOverTheWire(r *Run) {
 	}
 }
 
+// lateButCompleteUnaryReply (C04): the server-side timer (GRPC-Timeout) fires while a unary handler that ignores its
+// context is still working; it then returns its response with a nil error. The caller — whose own deadline is far
+// away — gets the complete real result or DeadlineExceeded, never Canceled (nobody cancelled) and never a mixture.
+func lateButCompleteUnaryReply(r *Run) {
+	for i := 0; i < r.Budget(4, 30); i++ {
+		svr := &scriptServer{unary: func(ctx context.Context, req *Msg) (*Msg, error) {
+			<-ctx.Done() // the timer has fired …
+			time.Sleep(2 * time.Millisecond)
+			return &Msg{Count: 77, Payload: []byte("late but complete")}, nil // … and the work is done anyway
+		}}
+		hm := newHTTPMem(svr)
+		hm.ch.Transport = shortTimeoutTransport{inner: hm.tr, value: []string{"20m", "5m", "40m"}[i%3]}
+		ctx, cancel := context.WithTimeout(context.Background(), 10*time.Second)
+		out := &Msg{}
+		err := hm.ch.Invoke(ctx, mUnary, &Msg{}, out)
+		cancel()
+		got := resOf(err)
+		r.Eval(fmt.Sprint("late-complete-unary", i), true)
+		r.Count("late-but-complete-unary-reply")
+		r.TracesOnImpl++
+		ok := (err == nil && out.Count == 77) || got == "status:4"
+		if !ok {
+			r.Violate("http/unary/late-complete-reply-not-result-or-deadline", "when cancellation races with completion the caller gets either the complete real result or the cancellation status (DeadlineExceeded for a deadline), never a mixture of the two",
+				sprintf("server-side deadline (GRPC-Timeout) fired, the handler then returned its response with a nil error; the caller (own deadline 10 s away, never cancelled) got %s (%v), response count %d", got, err, out.Count),
+				map[string]interface{}{"transport": "http", "kind": "unary", "op": "handler-returns-response-after-server-side-deadline"}, got)
+		}
+	}
+}
+
 func extraC04(r *Run) {
 	unaryCancelAfterReplyHeaders(r)
 	serverSideDeadline(r)
+	lateButCompleteUnaryReply(r)
 	cancelReachesIdleHandlerOverTheWire(r)
 	for _, tp := range bothTransports() {
 		for i := 0; i < r.Budget(3, 20); i++ {
